@@ -416,26 +416,21 @@ Section ValuesRule.
     destruct (assoc n defs); [rewrite Hx |]; rewrite ?IH; reflexivity.
   Qed.
 
-  Lemma ti_value_leaf e d v :
-    match v with VList _ _ _ | VObject _ _ _ => True
-            | _ => ti_value qo S e d v = set_ann {| va_expected := e; va_default := d |} v end.
-  Proof. destruct v; try exact I; reflexivity. Qed.
-
-  Lemma coercion_blind v : forall e dd t allow, coercion (ti_value qo S e dd v) t allow = coercion v t allow.
+  Lemma coercion_blind_in v : forall sc e dd t allow, coercion (ti_value_in qo S sc e dd v) t allow = coercion v t allow.
   Proof.
-    induction v using value_ind'; intros e dd t;
-      try (induction t as [tn | t' IHt | t' IHt]; intros allow; rewrite !coercion_unfold; cbn [ti_value set_ann is_var is_null v_pos];
+    induction v using value_ind'; intros sc e dd t;
+      try (induction t as [tn | t' IHt | t' IHt]; intros allow; rewrite !coercion_unfold; cbn [ti_value_in set_ann is_var is_null v_pos];
            try reflexivity; try apply IHt; try (destruct allow; [apply IHt | reflexivity]);
            destruct (raw_body S tn) as [[[| | | | |[ks|]] | vals | defs | | |]|]; reflexivity).
     - (* list *)
       induction t as [tn | t' IHt | t' IHt]; intros allow;
-        rewrite (coercion_unfold _ _ (ti_value qo S e dd _)), (coercion_unfold _ _ (VList _ _ _)); cbn [ti_value is_var is_null v_pos].
+        rewrite (coercion_unfold _ _ (ti_value_in qo S sc e dd _)), (coercion_unfold _ _ (VList _ _ _)); cbn [ti_value_in is_var is_null v_pos].
       + destruct (raw_body S tn) as [[[| | | | |[ks|]] | vals | defs | | |]|]; reflexivity.
       + apply items_loop_ext. eapply Forall_impl; [| exact H]. intros x Hx t0 a0. apply Hx.
       + apply IHt.
     - (* object *)
       induction t as [tn | t' IHt | t' IHt]; intros allow;
-        rewrite (coercion_unfold _ _ (ti_value qo S e dd _)), (coercion_unfold _ _ (VObject _ _ _)); cbn [ti_value is_var is_null v_pos].
+        rewrite (coercion_unfold _ _ (ti_value_in qo S sc e dd _)), (coercion_unfold _ _ (VObject _ _ _)); cbn [ti_value_in is_var is_null v_pos].
       + destruct (raw_body S tn) as [[[| | | | |[ks|]] | vals | defs | | |]|]; try reflexivity.
         apply fields_loop_ext. rewrite Forall_forall in *. intros [[n np] x] Hf.
         destruct (match object_fields qo S e with Some l => assoc n l | None => None end); simpl; (split; [reflexivity |]);
@@ -443,8 +438,10 @@ Section ValuesRule.
       + destruct allow; [apply IHt | reflexivity].
       + apply IHt.
   Qed.
+  Lemma coercion_blind v e dd t allow : coercion (ti_value qo S e dd v) t allow = coercion v t allow.
+  Proof. apply coercion_blind_in. Qed.
 
-  Lemma ti_value_ann e d v : v_ann (ti_value qo S e d v) = {| va_expected := e; va_default := d |}.
+  Lemma ti_value_ann e d v : v_ann (ti_value qo S e d v) = {| va_expected := e; va_default := d; va_scalar := false |}.
   Proof. destruct v; reflexivity. Qed.
   Lemma ti_value_is_var e d v : is_var (ti_value qo S e d v) = is_var v.
   Proof. destruct v; reflexivity. Qed.
